@@ -41,6 +41,38 @@ type c17Env struct {
 	light    bool      // snapshots must not make the cache load a bug (aftermath cases: the probes do the loading)
 	opened   string    // how the cache in use was obtained: built | loaded-from-disk
 	suspects []c17Case // requests served by this cache since (and including) its last accepted mutation
+
+	// the registry this repository is served from (c17_topo.go): the name under which it is registered, every
+	// registered name, and the topology (nil: the single default repository of c17BuildEnv)
+	repoName string
+	served   []string
+	topo     *c17Topo
+}
+
+// nServed is the number of repositories in the served registry.
+func (e *c17Env) nServed() int {
+	if len(e.served) == 0 {
+		return 1
+	}
+	return len(e.served)
+}
+
+// serves says whether a repository is registered under the name.
+func (e *c17Env) serves(name string) bool {
+	for _, n := range e.served {
+		if n == name {
+			return true
+		}
+	}
+	return false
+}
+
+// repoSel is the root field of a query addressed to this repository.
+func (e *c17Env) repoSel() string {
+	if e.nServed() == 1 && e.repoName == gqlDefaultRepoName {
+		return "repository"
+	}
+	return fmt.Sprintf("repository(ref: %q)", e.repoName)
 }
 
 // c17MinBugs is the least number of bugs of the served repository; c17SameFirstChar of them share their
@@ -55,7 +87,8 @@ func c17BuildEnv(seed int64) (*c17Env, error) {
 	if err != nil {
 		return nil, err
 	}
-	e := &c17Env{w: w, rep: w.Replicas[0], opsMemo: map[string][]string{}, infoMemo: map[string]*c17BugInfo{}, opened: "built"}
+	e := &c17Env{w: w, rep: w.Replicas[0], opsMemo: map[string][]string{}, infoMemo: map[string]*c17BugInfo{}, opened: "built",
+		repoName: gqlDefaultRepoName, served: []string{gqlDefaultRepoName}}
 	fail := func(err error) (*c17Env, error) { w.Close(); return nil, err }
 	if e.user, err = e.rep.NewAuthor("c17-user"); err != nil {
 		return fail(err)
